@@ -196,9 +196,12 @@ PROPS = {
                     "gate Runtime::stmt_is_pruned / function_is_pruned (exactly plan membership; nothing without a plan).  CFG (Verus, unit cfg_loop: the "
                     "Stmt::Loop arm of FunctionBuilder::lower_stmt cut from src/analysis/cfg.rs): the lowered loop has the shape the language "
                     "defines -- pre -> cond, cond branches to a fresh body entry or a fresh exit, the body is lowered with comot -> exit and "
-                    "next -> cond, the body tail goes back to cond, lowering continues in exit."),
+                    "next -> cond, the body tail goes back to cond, lowering continues in exit; comot/next edges target the enclosing loop's exit/condition.  "
+                    "SUMMARIES (Verus, unit summary_step: the body of summarize_component's callee loop and the real ExprClass::join): absorbing a "
+                    "callee puts everything it may transitively call / read / write through captures into the caller's sets, never drops anything, "
+                    "reports growth, raises the caller's running class to at least the callee's TRANSITIVE class, and aborts on an unavailable callee."),
         "not_covered": ("soundness of the dataflow itself with respect to execution: liveness fix-point, compute_block_facts, summary "
-                        "propagation (summarize_component), CFG lowering of the other statements and scope kills, compute_max_local_reference_stmt and "
+                        "propagation to a fixpoint (summarize_component's outer loops; one absorption step is decided), CFG lowering of the other statements and scope kills, compute_max_local_reference_stmt and "
                         "build_optimization_plan's loops (arena-resident tables do not terminate in CBMC). Two genuine liveness defects "
                         "found by a seeding sub-agent on the unmodified tree are outside these contracts (DESIGN.md section 6)."),
         "trusted_base": [KANI_TRUST, VERUS_TRUST, OS_TRUST],
